@@ -257,3 +257,122 @@ Fixpoint bsearch (fuel : nat) (a : list Z) (x : Z) (i j : nat) : nat :=
 Definition status_in_bsearch (l : list Z) (st : Z) : bool :=
   let p := bsearch (S (length l)) l st 0 (length l) in
   (p <? length l)%nat && (nth p l 0 =? st).
+
+(* ---- the query string AS WRITTEN (types/request.util.go: init() -> url.Parse,
+   DoesQueryParamExist / DoesQueryParamValueMatch -> ParsedURL.Query()) ----
+   net/url's URL.Query() = parseQuery IGNORING its error: the raw query is split on
+   "&"; an empty piece is skipped; a piece that contains ";" or whose key or value
+   has a bad percent escape (lone "%", "%zz") is DROPPED and the others are kept;
+   "+" decodes to a space, "%XX" to the byte.  The parameters a request carries
+   are the well-formed pairs, in order of appearance ([decode_query]).
+   [rawpair]: one non-empty piece, [None] = a pair that cannot be decoded.
+   Variant (refuted, Property.v): [query_strict] - one undecodable pair discards
+   every parameter of the request (url.ParseQuery's error taken as fatal). *)
+Definition hexval (c : Z) : option Z :=
+  if (48 <=? c) && (c <=? 57) then Some (c - 48)
+  else if (97 <=? c) && (c <=? 102) then Some (c - 87)
+  else if (65 <=? c) && (c <=? 70) then Some (c - 55)
+  else None.
+
+(* url.QueryUnescape *)
+Fixpoint unescape (s : tok) : option tok :=
+  match s with
+  | [] => Some []
+  | c :: r =>
+      if c =? 37 then
+        match r with
+        | a :: b :: r' =>
+            match hexval a, hexval b, unescape r' with
+            | Some h, Some l, Some u => Some (16 * h + l :: u)
+            | _, _, _ => None
+            end
+        | _ => None
+        end
+      else match unescape r with
+           | Some u => Some ((if c =? 43 then 32 else c) :: u)
+           | None => None
+           end
+  end.
+
+(* strings.Cut(s, sep) for a one-byte separator *)
+Fixpoint cut_at (c : Z) (s : tok) : tok * tok :=
+  match s with
+  | [] => ([], [])
+  | x :: r => if x =? c then ([], r) else let '(a, b) := cut_at c r in (x :: a, b)
+  end.
+
+Definition rawpair := option (tok * tok).
+
+Definition parse_pair (p : tok) : rawpair :=
+  if existsb (fun x => x =? 59) p then None
+  else let '(k, v) := cut_at 61 p in
+       match unescape k, unescape v with
+       | Some k', Some v' => Some (k', v')
+       | _, _ => None
+       end.
+
+Definition parse_query (raw : tok) : list rawpair :=
+  map parse_pair (filter (fun p => negb (tok_eqb p [])) (split_on 38 raw)).
+
+Definition is_good (o : rawpair) : bool := match o with Some _ => true | None => false end.
+
+(* URL.Query(): the undecodable pairs are dropped, the others kept in order *)
+Definition query_keep (l : list rawpair) : list (tok * tok) :=
+  flat_map (fun o => match o with Some kv => [kv] | None => [] end) l.
+(* variant: one undecodable pair and the request has no parameters at all *)
+Definition query_strict (l : list rawpair) : list (tok * tok) :=
+  if forallb is_good l then query_keep l else [].
+
+Definition decode_query (raw : tok) : list (tok * tok) := query_keep (parse_query raw).
+
+Definition with_query (x : txn) (q : list (tok * tok)) : txn :=
+  mkTxn (t_resp x) (t_url x) (t_method x) (t_headers x) q (t_status x).
+
+Fixpoint kvs_eqb (a b : list (tok * tok)) : bool :=
+  match a, b with
+  | [], [] => true
+  | (k, v) :: a', (k', v') :: b' => tok_eqb k k' && tok_eqb v v' && kvs_eqb a' b'
+  | _, _ => false
+  end.
+
+(* suite rawq: every observation comes with the request's query string as
+   written; [t_query] of its transaction holds the pairs the HARNESS's decoder read.
+   The model decodes the raw string itself, compares, and evaluates the selection
+   on its own decoding. *)
+Definition case_rawq := (list flow * list bool * list (obs * tok))%type.
+
+Definition redecode (o : obs * tok) : obs :=
+  let '((x, sel, a), raw) := o in (with_query x (decode_query raw), sel, a).
+Definition decoder_agrees (o : obs * tok) : bool :=
+  kvs_eqb (decode_query (snd o)) (t_query (fst (fst (fst o)))).
+
+Definition run_case_rawq (k : case_rawq)
+  : option (list bool * list (list Z) * list (list (tok * tok))) :=
+  let '(fs, errs, ol) := k in
+  let '(t, es) := build fs in
+  let obs' := map redecode ol in
+  if blist_eqb es errs && forallb (obs_agree t) obs' && forallb decoder_agrees ol
+  then None
+  else Some (es, map (fun o => fst (model_obs t (fst (fst o)))) obs',
+             map (fun o => decode_query (snd o)) ol).
+
+(* ---- required header VALUES: compared with strings.EqualFold (the code);
+   variant (refuted): compared byte for byte ---- *)
+Definition header_matches_exact (x : txn) (name value : tok) : bool :=
+  match assoc (lower name) (t_headers x) with
+  | Some have => tok_eqb have value
+  | None => false
+  end.
+Definition headers_ok_exact (f : flow) (x : txn) : bool :=
+  t_resp x ||
+  forallb (fun kv =>
+    existsb (fun kv' => tok_eqb (fst kv') (fst kv) && header_matches_exact x (fst kv') (snd kv'))
+            (f_headers f)) (f_headers f).
+(* the same transaction with every header value / the same flow with every
+   required header value spelled in lower case *)
+Definition lower_header_values (x : txn) : txn :=
+  mkTxn (t_resp x) (t_url x) (t_method x)
+        (map (fun kv => (fst kv, lower (snd kv))) (t_headers x)) (t_query x) (t_status x).
+Definition lower_required_values (f : flow) : flow :=
+  mkFlow (f_id f) (f_kind f) (f_url f) (f_methods f)
+         (map (fun kv => (fst kv, lower (snd kv))) (f_headers f)) (f_query f) (f_status f).
